@@ -430,17 +430,18 @@ def sweep_c05():
             walk(t, fid, fr['diags'])
     # built-ins stay built-ins when imported; near misses
     text = ('package p;\nimport android.os.ParcelFileDescriptor;\nimport p.q.Foo;\ninterface I {\n  void a(in ParcelFileDescriptor x);\n  void b(in android.os.ParcelFileDescriptor x);\n'
-            '  void c(in XFoo x);\n  void d(in q.Foo x);\n  void e(in other.q.Foo x);\n  void f(in IBinder x);\n  void g(in Foo x);\n}\n')
-    r2 = replay.project({'main.aidl': text, 'foo.aidl': 'package p.q;\nparcelable Foo { int a; }\n'})
+            '  void c(in XFoo x);\n  void d(in q.Foo x);\n  void e(in other.q.Foo x);\n  void f(in IBinder x);\n  void g(in Foo x);\n  void h(in Sibling x);\n  void i(in p.Sibling x);\n}\n')
+    # Sibling lives in the same package but is not imported: AIDL has no implicit same-package scope
+    r2 = replay.project({'main.aidl': text, 'foo.aidl': 'package p.q;\nparcelable Foo { int a; }\n', 'sib.aidl': 'package p;\nparcelable Sibling { int a; }\n'})
     fr = r2['files']['main.aidl']['valid']
     kinds = {m['name']: m['args'][0]['type']['kind'] for m in fr['ast']['members']}
     want = {'a': 'android:ParcelFileDescriptor', 'b': 'android:ParcelFileDescriptor', 'c': 'unresolved', 'e': 'unresolved', 'f': 'android:IBinder', 'g': 'resolved:p.q.Foo:Parcelable',
-            'd': 'resolved:p.q.Foo:Parcelable'}
+            'd': 'resolved:p.q.Foo:Parcelable', 'h': 'unresolved', 'i': 'unresolved'}
     for k, v in want.items():
         n += 1
         if kinds.get(k) != v:
             bad.append({'method': k, 'what': 'type classified as %s, expected %s' % (kinds.get(k), v)})
-    for k in ('c', 'e'):
+    for k in ('c', 'e', 'h', 'i'):
         m = [x for x in fr['ast']['members'] if x['name'] == k][0]
         errs = [d for d in fr['diags'] if d['range'][:2] == m['args'][0]['type']['sym'][:2] and d['kind'] == 'Error' and 'Unknown type' in d['message']]
         if len(errs) != 1:
@@ -932,4 +933,99 @@ def sweep_c13():
         r = replay.project(files)
         if 'files' in r and digest_file(r['files']['a.aidl']) == ref:
             bad.append({'what': 'negative control left the result unchanged: ' + what, 'files': files, 'control': True})
+    return n, bad
+
+
+# ---------------------------------------------------------------------------------------------------------------------------
+# C02: reference trees of three documents that use every construct, and layout variants of the same token sequences
+C02_DOCS = {
+    'm.aidl': ('package a . b . c ; import x . y . Z ; import q . W ; parcelable fwd . Decl ; @Top ( k0 = 1 , k1 = "s" ) oneway interface Iface { '
+               '@Ann0 ( p = true ) RetT mname ( in ArgT0 aname0 , out @AnnA Map < String , List < ArgT1 > > aname1 , inout int [ ] arr , IBinder ) = 7 ; '
+               'const int CNAME = 12 ; const String S = "str" ; oneway void second ( ) ; List raw ( Map m , ) ; }'),
+    'e.aidl': 'package e ; @Backing ( type = "byte" ) enum E { @Dep A = 1 , B , C = "x" , }',
+    'p.aidl': ('package p ; parcelable P { int x = 5 ; @F float [ ] fs = { 1.0f , 2 } ; String s ; Other . Name on = Foo . BAR ; const boolean T = true ; '
+               'double d = -.5f ; CharSequence cs ; int_ inout2 ; const int _lead = 0 ; Listing trail_ ; }'),
+}
+C02_GAPS = [' ', '\n', '\t \r\n', ' /* c */ ', '/**/', ' // line\n', '  ', ' /* é 漢 */\n// x\r\n']
+
+
+def strip_positions(o):
+    if isinstance(o, dict):
+        return {k: strip_positions(v) for k, v in o.items() if k not in ('sym', 'full', 'range', 'doc', 'package_sym', 'package_full', 'direction_range', 'code_range', 'oneway_range',
+                                                                          'symbols_all', 'symbols_items', 'symbols_elements', 'types_walk', 'walkers')}
+    if isinstance(o, list):
+        return [strip_positions(x) for x in o]
+    return o
+
+
+def c02_expectations(trees):
+    """[(what, ok, role hint)] against the reference trees written from the source text above"""
+    out = []
+
+    def exp(what, got, want, hint=None):
+        out.append((what, got == want, hint, got, want))
+
+    def ty(t):
+        return t['name'] + ('<' + ','.join(ty(g) for g in t['generic']) + '>' if t['generic'] else '')
+    m = trees['m.aidl']
+    exp('package name', m['package'], 'a.b.c')
+    exp('imports in order', [(i['path'], i['name']) for i in m['imports']], [('x.y', 'Z'), ('q', 'W')])
+    exp('forward declarations', [(i['path'], i['name']) for i in m['declared']], [('fwd', 'Decl')])
+    exp('item', (m['item']['tag'], m['item']['name'], m['item']['oneway']), ('interface', 'Iface', True))
+    mem = m['members']
+    exp('members in source order', [(x['tag'], x['name']) for x in mem], [('method', 'mname'), ('const', 'CNAME'), ('const', 'S'), ('method', 'second'), ('method', 'raw')])
+    if len(mem) == 5:
+        mm = mem[0]
+        exp('method: return type / code / oneway', (ty(mm['ret']), mm['code'], mm['oneway']), ('RetT', 7, False))
+        exp('argument names', [a['name'] for a in mm['args']], ['aname0', 'aname1', 'arr', None])
+        exp('argument directions', [a['direction'] for a in mm['args']], ['in', 'out', 'inout', ''])
+        exp('argument types', [ty(a['type']) for a in mm['args']], ['ArgT0', 'Map<String,List<ArgT1>>', 'Array<int>', 'IBinder'])
+        exp('constants', [(x['name'], ty(x['type']), x['value']) for x in mem[1:3]], [('CNAME', 'int', '12'), ('S', 'String', '"str"')])
+        exp('second method', (ty(mem[3]['ret']), mem[3]['oneway'], mem[3]['code'], mem[3]['args']), ('void', True, None, []))
+        exp('raw containers', (ty(mem[4]['ret']), [ty(a['type']) for a in mem[4]['args']]), ('List', ['Map']))
+    exp('annotations of the interface file', [(a['owner'], a['name'], a['params']) for a in m['annotations']],
+        [('item', '@Top', [['k0', '1'], ['k1', '"s"']]), ('mname', '@Ann0', [['p', 'true']]), ('mname#1', '@AnnA', [])])
+    e = trees['e.aidl']
+    exp('enum elements', [(x['name'], x['value']) for x in e['members']], [('A', '1'), ('B', None), ('C', '"x"')])
+    exp('enum annotations', [(a['owner'], a['name'], a['params']) for a in e['annotations']], [('item', '@Backing', [['type', '"byte"']]), ('A', '@Dep', [])], 'dropped:EnumElement<-OptAnnotation+')
+    p = trees['p.aidl']
+    exp('fields', [(x['tag'], x['name'], ty(x['type'])) for x in p['members']],
+        [('field', 'x', 'int'), ('field', 'fs', 'Array<float>'), ('field', 's', 'String'), ('field', 'on', 'Other.Name'), ('const', 'T', 'boolean'), ('field', 'd', 'double'),
+         ('field', 'cs', 'CharSequence'), ('field', 'inout2', 'int_'), ('const', '_lead', 'int'), ('field', 'trail_', 'Listing')])
+    vals = {x['name']: x['value'] for x in p['members']}
+    exp('scalar values', [vals.get(k) for k in ('x', 's', 'on', 'T', 'd')], ['5', None, 'Foo.BAR', 'true', '-.5f'])
+    exp('array literal value', (vals.get('fs') or '').replace(' ', ''), '{1.0f,2}', 'dropped:Value<-Value+')
+    exp('annotations of the parcelable file', [(a['owner'], a['name']) for a in p['annotations']], [('fs', '@F')])
+    return out
+
+
+def sweep_c02():
+    """-> (comparisons, failures [{what, hint, ...}])"""
+    n, bad = 0, []
+    base = None
+    for gi, gap in enumerate(C02_GAPS):
+        files = {fid: gap.join(text.split(' ')) + gap for fid, text in C02_DOCS.items()}
+        r = replay.project(files)
+        if 'files' not in r:
+            bad.append({'what': 'parse failed under layout #%d: %s' % (gi, str(r)[:200]), 'hint': 'layout'}); continue
+        trees = {}
+        for fid in files:
+            fr = r['files'][fid]['parse']
+            if fr['ast'] is None or fr['diags']:
+                bad.append({'what': 'well-formed document %s under layout #%d gives diagnostics / no tree: %s' % (fid, gi, str(fr['diags'])[:200]), 'hint': 'layout'})
+            else:
+                trees[fid] = strip_positions(fr['ast'])
+        if len(trees) != len(files):
+            continue
+        if base is None:
+            base = trees
+            for what, ok, hint, got, want in c02_expectations(trees):
+                n += 1
+                if not ok:
+                    bad.append({'what': 'tree does not mirror the source: ' + what, 'hint': hint, 'got': got, 'want': want})
+        else:
+            n += 1
+            if trees != base:
+                fid = [f for f in trees if trees[f] != base[f]][0]
+                bad.append({'what': 'layout #%d (%r between all tokens) changes the tree of %s' % (gi, gap, fid), 'hint': 'layout'})
     return n, bad
